@@ -45,6 +45,16 @@ theorem C14_psha (h : Bytes → Bytes) (seed : Bytes) (hl : Nat) (hpos : 0 < hl)
         iv := ((Spec.pSha h seed (a + b + c)).drop (a + b)).take c } :=
   generateKeys_eq_spec h seed hl hpos hh a b c
 
+/-- P_hash truncated to `n` bytes has exactly `n` bytes, and the three derived
+    keys have exactly the requested lengths — for all inputs (only the hash
+    length is used) -/
+theorem C14_key_lengths (h : Bytes → Bytes) (seed : Bytes) (hl : Nat) (hpos : 0 < hl)
+    (hh : ∀ m, (h m).length = hl) (a b c : Nat) :
+    (Spec.pSha h seed (a + b + c)).length = a + b + c ∧
+    (generateKeys h seed a b c).signing.length = a ∧ (generateKeys h seed a b c).encryption.length = b ∧
+    (generateKeys h seed a b c).iv.length = c :=
+  ⟨pSha_length h seed hl hpos hh _, generateKeys_lengths h seed hl hpos hh a b c⟩
+
 /-- the generated table and the specification's profile table describe the same
     five policies with the same hashes and key lengths -/
 theorem C14_profiles :
